@@ -163,7 +163,7 @@ let hex_of (bytes : n list) : string =
 
 let everr_name = function
   | ErrStrOp _ -> "strop" | ErrUnknownFunction _ -> "unknown_function" | ErrArgCount -> "arg_count" | ErrInterpolate -> "interpolate"
-  | ErrOverflow _ -> "overflow" | ErrNegOverflow -> "neg_overflow" | ErrLiteral -> "literal"
+  | ErrOverflow _ -> "overflow" | ErrNegOverflow -> "neg_overflow" | ErrLiteral -> "literal" | ErrMixedOp _ -> "mixedop"
 let dkind_name = function
   | DRedefine -> "redefine" | DSegmentRange -> "segment_range" | DUnknownDefinition -> "unknown_definition"
   | DFieldNotAllowed -> "field_not_allowed" | DMissingFields -> "missing_fields" | DConfigKey -> "config_key"
